@@ -153,21 +153,26 @@ func VH_C18_match() {
 	vObserve("n", len(segs))
 }
 
-//verif:harness prop=C18 quick=3 thorough=6 merge=concrete timeout=1500
-//verif:bounds Search: (sequence,query) lengths (2,1) (3,2) (4,2) quick, plus (4,1) (5,2) (5,3) thorough, symbolic bytes over {a,A,c,C} over the same alphabet: the result is the ascending list of all (overlapping) case-insensitive occurrences
+//verif:harness prop=C18 quick=4 thorough=7 merge=concrete timeout=1500
+//verif:bounds Search: (sequence,query) lengths (2,1) (3,2) (4,2) and the concrete sequence ff 61 ff 41 with a one-letter query (quick), plus (4,1) (5,2) (5,3) thorough, symbolic bytes over {a,A,c,C,0xff}: the result is the ascending list of all (overlapping) case-insensitive occurrences
 //verif:assume index/suffixarray: Lookup returns all occurrence offsets in an unspecified order (modelled: descending)
 func VH_C18_search() {
-	sh := vShard(3 + 3*vTier())
-	pick := [][2]int{{2, 1}, {3, 2}, {4, 2}, {4, 1}, {5, 2}, {5, 3}}[sh]
+	sh := vShard(4 + 3*vTier())
+	pick := [][2]int{{2, 1}, {3, 2}, {4, 2}, {4, 1}, {4, 1}, {5, 2}, {5, 3}}[sh]
 	sn, qn := pick[0], pick[1]
 	alpha := func(name string, n int) []byte {
 		p := make([]byte, n)
 		for i := range p {
-			p[i] = "aAcC"[vIntIn(name+string(rune('0'+i)), 0, 3)]
+			// 0xff: a byte that is not valid UTF-8 (offsets are byte offsets whatever the bytes are)
+			p[i] = "aAcC\xff"[vIntIn(name+string(rune('0'+i)), 0, 4)]
 		}
 		return p
 	}
 	s, q := alpha("s", sn), alpha("q", qn)
+	if sh == 3 {
+		s = []byte("\xffa\xffA") // concrete non-UTF-8 residues around the occurrences
+		q = []byte{"aA"[vIntIn("q0", 0, 1)]}
+	}
 	segs := Search(New(nil, nil, s), New(nil, nil, q))
 	vCover("searched")
 	occ := func(i int) bool {
